@@ -310,6 +310,8 @@ def attribute(ctx, db, sub, kind, ckey, base_key, msg):
             # interleaved: a foreign hidden key sorts before one of the key's own entries (forward scans meet it first);
             # after-last: foreign hidden keys only follow the key's last entry (only the walk back from the maximum meets them)
             how = "interleaved" if own and min(foreign) < max(own) else "after-last"
+            if not (ctx.case or {}).get("hostile", True):
+                how = "UNPREDICTED-" + how     # the generator called this universe clean: never to be filed under a known finding
             ctx.violation(f"cross-key:foreign-iokey-{how}:{reader}",
                           f"{msg}; hidden keys of OTHER keys lie inside the ordinal range of {ckey!r}: {foreign[:4]}; "
                           f"raw sub-db keys: {[k for k, _ in store.raw_items(db.env, sub.sdb)][:24]}")
